@@ -230,6 +230,7 @@ Definition on_last_state (sy : sys) (now : N) (p : pid) (h : vhdr) (fresh : bool
   match find_peer p (peers sy) with
   | None => ban sy p E_PEER_NOT_FOUND
   | Some s =>
+    if negb (is_ok (vtd h)) then ban sy p E_INVALID_CHAIN_ROOT else
     if negb (v_pow_ok h) then ban sy p E_INVALID_NONCE else
     if negb (v_root_ok h) then ban sy p E_INVALID_CHAIN_ROOT else
     if negb fresh then ban sy p E_PEER_IN_IBD else
